@@ -24,7 +24,8 @@ import (
 // (flows, names, missing sections) is what varies.
 
 func c13NestedPipeline(g *zz.Gen, r *vfRand) map[string]interface{} {
-	kinds := []string{"Mock", "CORSAdaptor", "HeaderToJSON", "ResponseBuilder", "RateLimiter", "Validator"}
+	// stateful kinds (Proxy pools, RateLimiter limiters) matter for the update path
+	kinds := []string{"Mock", "CORSAdaptor", "HeaderToJSON", "ResponseBuilder", "RateLimiter", "Validator", "Proxy", "Proxy", "RateLimiter"}
 	n := r.PickInt(0, 1, 1, 2)
 	var fs, flow []interface{}
 	for i := 0; i < n; i++ {
@@ -121,16 +122,40 @@ var c13Entry = &zz.ObjectEntry{
 		}) {
 			return
 		}
-		for i, rq := range in.Reqs {
-			ctx := zz.NewContextFor(in.Doc, rq)
-			if ctx == nil {
-				continue
+		serve := func(cls, at string) {
+			for i, rq := range in.Reqs {
+				if obs.Panic != "" {
+					return
+				}
+				ctx := zz.NewContextFor(in.Doc, rq)
+				if ctx == nil {
+					continue
+				}
+				ok := zz.Stage(obs, cls, fmt.Sprintf("%s#%d", at, i), func() { gf.Handle(ctx, main) })
+				zz.Stage(obs, "other", "Finish", func() { ctx.Finish() })
+				if !ok {
+					break
+				}
 			}
-			ok := zz.Stage(obs, "handle", fmt.Sprintf("GlobalFilter.Handle#%d", i), func() { gf.Handle(ctx, main) })
-			zz.Stage(obs, "other", "Finish", func() { ctx.Finish() })
-			if !ok {
+		}
+		serve("handle", "GlobalFilter.Handle")
+		// the update path: two further generations of the same spec inherit from the running one
+		for gen := 2; gen <= 3 && obs.Panic == ""; gen++ {
+			yb, err := yaml2.Marshal(in.Doc)
+			if err != nil {
 				break
 			}
+			super2, err := supervisor.NewSpec(string(yb))
+			if err != nil {
+				break
+			}
+			gf2 := &GlobalFilter{}
+			prev := gf
+			if !zz.Stage(obs, "other", fmt.Sprintf("gen%d.GlobalFilter.Inherit", gen), func() { gf2.Inherit(super2, prev) }) {
+				return
+			}
+			gf = gf2
+			serve("other", fmt.Sprintf("gen%d.GlobalFilter.Handle", gen))
 		}
 		zz.Stage(obs, "other", "Close", func() { gf.Close(); main.Close() })
 	},
